@@ -28,7 +28,8 @@ OPS = ['create', 'create_key_pair', 'register', 'rekey', 'derive_key',
        'locate', 'check', 'get', 'get_attributes', 'get_attribute_list',
        'activate', 'revoke', 'destroy', 'encrypt', 'decrypt', 'sign',
        'signature_verify', 'mac', 'set_attribute', 'modify_attribute',
-       'delete_attribute', 'proxy_query', 'proxy_discover_versions']
+       'delete_attribute', 'proxy_query', 'proxy_discover_versions',
+       'proxy_check']
 RULE = ('plan = client operation (21) x KMIP version (6) x scripted response '
         '(success with seeded payload values incl. all seven object types '
         'for get; or failure with a seeded reason of the full reason table '
@@ -40,7 +41,7 @@ RULE = ('plan = client operation (21) x KMIP version (6) x scripted response '
         'a non-default payload or a failure and the transport plan was not '
         '"whole". Distinct = (operation, version, response digest, '
         'transport kind).')
-PROBES = ['success_returned', 'failure_raised', 'all_cut_offsets',
+PROBES = ['prior_call_with_all_optional_fields', 'success_returned', 'failure_raised', 'all_cut_offsets',
           'all_split_points', 'reset', 'timeout', 'trailing_bytes',
           'request_accepted_by_server_decoder', 'non_ascii_message',
           'empty_message', 'get_object_roundtrip']
@@ -110,7 +111,7 @@ def gen_uid(r):
     return str(r.randrange(1, 10 ** 6))
 
 
-def gen_response(r, op, ver):
+def gen_response(r, op, ver, rich=False):
     """Success payload spec for a client operation."""
     p = {'uid': gen_uid(r)}
     if op == 'create_key_pair':
@@ -155,7 +156,7 @@ def gen_response(r, op, ver):
     elif op in ('encrypt',):
         p['data'] = bytes(r.getrandbits(8) for _ in range(
             r.choice([0, 1, 16, 33]))).hex()
-        if r.random() < 0.5:
+        if rich or r.random() < 0.5:
             p['iv'] = bytes(r.getrandbits(8) for _ in range(16)).hex()
     elif op in ('decrypt',):
         p['data'] = bytes(r.getrandbits(8) for _ in range(
@@ -177,8 +178,13 @@ def gen_response(r, op, ver):
     elif op == 'proxy_discover_versions':
         p['versions'] = [list(v) for v in r.sample(gen.VERSIONS,
                                                     r.randint(0, 6))]
-    elif op == 'check':
-        pass
+    elif op in ('check', 'proxy_check'):
+        if rich or r.random() < 0.4:
+            p['lease'] = r.choice([0, 60, 3600])
+        if rich or r.random() < 0.4:
+            p['mask'] = r.choice([4, 12, 0x80, 0xFFFFF])
+        if rich or r.random() < 0.4:
+            p['limit'] = r.choice([0, 1, 2 ** 40])
     return p
 
 
@@ -188,7 +194,7 @@ OPNUM = {'create': 1, 'create_key_pair': 2, 'register': 3, 'rekey': 4,
          'revoke': 19, 'destroy': 20, 'encrypt': 31, 'decrypt': 32,
          'sign': 33, 'signature_verify': 34, 'mac': 35, 'set_attribute': 49,
          'modify_attribute': 14, 'delete_attribute': 15, 'proxy_query': 24,
-         'proxy_discover_versions': 30}
+         'proxy_discover_versions': 30, 'proxy_check': 9}
 MIN_VER = {'proxy_discover_versions': (1, 1), 'encrypt': (1, 2), 'decrypt': (1, 2), 'sign': (1, 2),
            'signature_verify': (1, 2), 'mac': (1, 2),
            'set_attribute': (2, 0)}
@@ -202,8 +208,17 @@ def payload_nodes(op, p, ver):
     if op == 'create_key_pair':
         return [T(TAG['PRIVATE_KEY_UNIQUE_IDENTIFIER'], p['uid']),
                 T(TAG['PUBLIC_KEY_UNIQUE_IDENTIFIER'], p['pub'])]
+    if op in ('check', 'proxy_check'):
+        out = [U(p['uid'])]
+        if p.get('limit') is not None:
+            out.append(t.L(0x420096, p['limit']))
+        if p.get('mask') is not None:
+            out.append(I(TAG['CRYPTOGRAPHIC_USAGE_MASK'], p['mask']))
+        if p.get('lease') is not None:
+            out.append(t.Node(0x420049, t.INTERVAL, p['lease']))
+        return out
     if op in ('register', 'rekey', 'derive_key', 'activate', 'revoke',
-              'destroy', 'check', 'set_attribute'):
+              'destroy', 'set_attribute'):
         return [U(p['uid'])]
     if op == 'locate':
         return [U(u) for u in p['uids']]
@@ -403,6 +418,15 @@ def invoke(c, op, ver, r_args):
     if op == 'mac':
         return c.mac(b'data', uid=uid,
                      algorithm=enums.CryptographicAlgorithm.HMAC_SHA256)
+    if op == 'proxy_check':
+        d = c.proxy.check(uid)
+        if getattr(d.get('result_status'), 'value',
+                   d.get('result_status')) not in (
+                       0, enums.ResultStatus.SUCCESS):
+            raise ProxyFailure(d.get('result_status'),
+                               d.get('result_reason'),
+                               d.get('result_message'))
+        return d
     if op == 'proxy_query':
         return proxy_result(c.proxy.query(query_functions=[
             enums.QueryFunction.QUERY_OPERATIONS,
@@ -443,7 +467,9 @@ class ProxyFailure(Exception):
 
     def __init__(self, status, reason, message):
         Exception.__init__(self, message)
-        self.status, self.reason, self.message = status, reason, message
+        ev = lambda x: getattr(x, 'value', x)
+        self.status, self.reason, self.message = \
+            ev(ev(status)), ev(ev(reason)), ev(message)
 
 
 def proxy_result(res):
@@ -459,6 +485,15 @@ def proxy_result(res):
 def project(op, ver, res):
     """Client return value -> comparable JSON value."""
     import enum
+    if op == 'proxy_check':
+        m = res.get('cryptographic_usage_mask')
+        if m is not None:
+            mv = 0
+            for e_ in m:
+                mv |= e_.value
+            m = mv
+        return [res.get('unique_identifier'),
+                res.get('usage_limits_count'), m, res.get('lease_time')]
     if op == 'proxy_query':
         ops = [getattr(getattr(o, 'value', o), 'value',
                        getattr(o, 'value', o)) for o in res.operations or []]
@@ -498,6 +533,8 @@ def project(op, ver, res):
 
 
 def expected(op, ver, p):
+    if op == 'proxy_check':
+        return [p['uid'], p.get('limit'), p.get('mask'), p.get('lease')]
     if op == 'proxy_query':
         return [list(p['operations']), p.get('vendor')]
     if op == 'proxy_discover_versions':
@@ -577,6 +614,11 @@ def generate(rng, tier, index):
     args['variant'] = r.choice([0, 0, 1, 2])
     plan = {'op': op, 'ver': list(ver), 'ok': ok, 'args': args,
             'seed': r.randrange(1 << 30)}
+    if r.random() < 0.6:
+        # an earlier successful call of the same operation whose response
+        # carried every optional field (client-side state must not carry
+        # over into the call under test)
+        plan['prior'] = gen_response(r, op, tuple(ver), rich=True)
     if ok:
         plan['payload'] = gen_response(r, op, tuple(ver))
     else:
@@ -693,6 +735,10 @@ def execute(plan):
 
     tr = plan['transport']
     k = tr['kind']
+    if plan.get('prior') is not None:
+        probes['prior_call_with_all_optional_fields'] += 1
+        call(plan, build_response(op, ver, True, plan['prior'], None), {})
+        evals += 1
     base, captured = call(plan, raw, {})
     evals += 1
     judge(base, 'whole')
